@@ -532,7 +532,11 @@ class _Raw:
         return b""
 
 
-def run(levels, codes, mask=None):
+DICT_NOW = [None]      # the dictionary of the chunk being read (None: LABELS)
+
+
+def run(levels, codes, mask=None, into=None):
+    """into: (assign view, catdef) of a frame shared by several row groups (categorical output)"""
     n = len(levels)
     pages, pos, vi = [], 0, 0
     for r in ROWS:
@@ -550,7 +554,9 @@ def run(levels, codes, mask=None):
         for m in mask:
             nsel += 1 if m else 0
     catdef = None
-    if OUT == "cat":
+    if into is not None:
+        assign, catdef = into
+    elif OUT == "cat":
         assign, catdef = Arr(["unset"] * nsel, dtype=_I8Dtype()), _CatDef()
     else:
         assign = Masked(nsel) if OUT == "nullable" else Arr(["unset"] * nsel)
@@ -561,7 +567,7 @@ def run(levels, codes, mask=None):
              core.read_plain, core.pd, core.decom_into)
     core.encoding, core.ThriftObject, core.np, core.pd = _Enc, _TO, _NP, _PDShim
     core.decom_into = {"SNAPPY": _s_decomp_into}
-    core.read_dictionary_page = lambda infile, sh, ph, cmd, utf=False: _Dic(LABELS)
+    core.read_dictionary_page = lambda infile, sh, ph, cmd, utf=False: _Dic(DICT_NOW[0] or LABELS)
     core.convert = lambda v, se, dtype=None: v
     core.decompress_data = _s_decompress
     core.read_plain = _s_read_plain
@@ -571,6 +577,8 @@ def run(levels, codes, mask=None):
     finally:
         (core.encoding, core.ThriftObject, core.read_dictionary_page, core.np, core.convert, core.decompress_data,
          core.read_plain, core.pd, core.decom_into) = saved
+    if into is not None:
+        return None
     if OUT == "cat":
         return [NAN if c == -1 else (catdef.cats[c] if isinstance(c, int) and 0 <= c < len(catdef.cats) else ("code", c))
                 for c in assign.store]
@@ -716,3 +724,96 @@ def h_read_col_v2(levels: List[int], codes: List[int]) -> bool:
 
 def replay_h_read_col_v2(levels, codes):
     return _concrete(levels, codes)
+
+
+# ------------------------------------------------------------------ categorical column over two row groups ---
+DICTS = [[500, 501, 502, 503], [503, 502, 501, 500], [500, 501, 502, 503, 504], [500, 501], [600, 500, 501, 502]]
+
+
+def _pick_i(v, lo, hi):
+    for k in range(lo, hi + 1):
+        if v == k:
+            return k
+    raise ValueError(v)
+
+
+def _two_groups(c0, c1, d0, d1):
+    """two row groups (one page of two REQUIRED rows each) of a column loaded as categorical into one frame: the real
+    read_col once per row group, sharing the frame's code array and its categorical dtype (as read_row_group does)"""
+    n0, n1 = len(c0), len(c1)
+    store = ["unset"] * (n0 + n1)
+    full = Arr(store, dtype=_I8Dtype())
+    catdef = _CatDef()
+    global ROWS
+    saved_rows = ROWS
+    try:
+        for codes, dic, lo in ((c0, DICTS[d0], 0), (c1, DICTS[d1], n0)):
+            ROWS = [len(codes)]
+            DICT_NOW[0] = dic
+            run([1] * len(codes), list(codes), into=(full[lo:lo + len(codes)], catdef))
+    finally:
+        ROWS = saved_rows
+        DICT_NOW[0] = None
+    got = [(catdef.cats[c] if isinstance(c, int) and 0 <= c < len(catdef.cats) else ("code", c)) for c in store]
+    want = [DICTS[d0][c] for c in c0] + [DICTS[d1][c] for c in c1]
+    return got == want
+
+
+def h_cat_two_groups(a0: int, a1: int, b0: int, b1: int, d0: int, d1: int) -> bool:
+    """
+    pre: 0 <= a0 <= 1 and 0 <= a1 <= 1 and 0 <= b0 <= 1 and 0 <= b1 <= 1 and 0 <= d0 <= 4 and 0 <= d1 <= 4
+    post: __return__
+    """
+    # every row keeps the label its own row group's dictionary gives to its index - whatever dictionaries the row
+    # groups carry (appended batches and files written separately have their own)
+    d0, d1 = _pick_i(d0, 0, 4), _pick_i(d1, 0, 4)
+    return _two_groups([a0, a1], [b0, b1], d0, d1)
+
+
+def h_cat_two_groups_rest(a0: int, a1: int, b0: int, b1: int, d0: int) -> bool:
+    """
+    pre: 0 <= a0 <= 1 and 0 <= a1 <= 1 and 0 <= b0 <= 1 and 0 <= b1 <= 1 and 0 <= d0 <= 4
+    post: __return__
+    """
+    # outside the known finding: both row groups carry the same dictionary
+    d0 = _pick_i(d0, 0, 4)
+    return _two_groups([a0, a1], [b0, b1], d0, d0)
+
+
+def _replay_two_groups(a0, a1, b0, b1, d0, d1):
+    import shutil, tempfile
+    import fastparquet
+    d = tempfile.mkdtemp(prefix="c07-")
+    try:
+        want = [DICTS[d0][a0], DICTS[d0][a1], DICTS[d1][b0], DICTS[d1][b1]]
+        for how in ("append", "list"):
+            fn = os.path.join(d, "ds-" + how)
+            f1 = pd.DataFrame({"x": pd.Categorical.from_codes([a0, a1], categories=DICTS[d0])})
+            f2 = pd.DataFrame({"x": pd.Categorical.from_codes([b0, b1], categories=DICTS[d1])})
+            try:
+                if how == "append":
+                    fastparquet.write(fn, f1)
+                    fastparquet.write(fn, f2, append=True)
+                    pf = fastparquet.ParquetFile(fn)
+                else:
+                    fastparquet.write(fn + "1", f1)
+                    fastparquet.write(fn + "2", f2)
+                    pf = fastparquet.ParquetFile([fn + "1", fn + "2"])
+                got = [int(v) for v in pf.to_pandas()["x"]]
+            except Exception as ex:
+                return True, "two batches with category lists %r and %r (%s): %s: %s" % (
+                    DICTS[d0], DICTS[d1], how, type(ex).__name__, str(ex)[:80])
+            if got != want:
+                return True, "two batches with category lists %r and %r (%s): rows %r read back as %r" % (
+                    DICTS[d0], DICTS[d1], how, want, got)
+        return False, "labels intact"
+    finally:
+        shutil.rmtree(d, ignore_errors=True)
+
+
+def replay_h_cat_two_groups(a0, a1, b0, b1, d0, d1):
+    return _replay_two_groups(a0, a1, b0, b1, d0, d1)
+
+
+def replay_h_cat_two_groups_rest(a0, a1, b0, b1, d0):
+    return _replay_two_groups(a0, a1, b0, b1, d0, d0)
